@@ -15,6 +15,15 @@ use std::os::unix::fs::OpenOptionsExt;
 
 const MAX_BUF: usize = 16 * 1024 * 1024; // 16MB should be enough for anyone :)
 
+// The module is only registered when the capability is granted, but the grant can be
+// taken back later (VM::set_capabilities): every native re-checks it, like sys.exec* do.
+fn require_fs(vm: &VM, operation: &'static str) -> Result<(), RuntimeError> {
+    if !vm.capabilities().allow_fs {
+        return Err(vm.runtime_error(RuntimeErrorKind::CapabilityDenied { operation }));
+    }
+    Ok(())
+}
+
 pub fn register(vm: &mut VM) -> Result<StdModuleExports, RuntimeError> {
     let mut exports = Vec::new();
     let mut natives = Vec::new();
@@ -83,6 +92,7 @@ fn fs_error(vm: &VM, op: &'static str, msg: String) -> RuntimeError {
 
 // mode: "r", "w", "a", "rw" (or "r+")
 fn native_open(vm: &mut VM, args: &[Value]) -> Result<Value, RuntimeError> {
+    require_fs(vm, "fs.open")?;
     let path = get_string(vm, args[0], "fs.open")?;
     let mode_str = get_string(vm, args[1], "fs.open")?;
 
@@ -172,6 +182,7 @@ fn native_open(vm: &mut VM, args: &[Value]) -> Result<Value, RuntimeError> {
 }
 
 fn native_close(vm: &mut VM, args: &[Value]) -> Result<Value, RuntimeError> {
+    require_fs(vm, "fs.close")?;
     let h = get_handle(vm, args[0], "fs.close")?;
     match vm.take_resource(h) {
         Some(Resource::File(mut f)) => {
@@ -185,6 +196,7 @@ fn native_close(vm: &mut VM, args: &[Value]) -> Result<Value, RuntimeError> {
 }
 
 fn native_read(vm: &mut VM, args: &[Value]) -> Result<Value, RuntimeError> {
+    require_fs(vm, "fs.read")?;
     let handle = get_handle(vm, args[0], "fs.read")?;
 
     if let Some(Resource::File(file_res)) = vm.get_resource_mut(handle) {
@@ -207,6 +219,7 @@ fn native_read(vm: &mut VM, args: &[Value]) -> Result<Value, RuntimeError> {
 }
 
 fn native_read_line(vm: &mut VM, args: &[Value]) -> Result<Value, RuntimeError> {
+    require_fs(vm, "fs.read_line")?;
     let h = get_handle(vm, args[0], "fs.read_line")?;
     if let Some(Resource::File(f)) = vm.get_resource_mut(h) {
         if let Some(reader) = f.reader.as_mut() {
@@ -235,6 +248,7 @@ fn native_read_line(vm: &mut VM, args: &[Value]) -> Result<Value, RuntimeError> 
 }
 
 fn native_read_bytes(vm: &mut VM, args: &[Value]) -> Result<Value, RuntimeError> {
+    require_fs(vm, "fs.read_bytes")?;
     let h = get_handle(vm, args[0], "fs.read_bytes")?;
     let n = get_int(vm, args[1], "fs.read_bytes")?;
 
@@ -275,10 +289,12 @@ fn native_read_bytes(vm: &mut VM, args: &[Value]) -> Result<Value, RuntimeError>
 }
 
 fn native_read_all(vm: &mut VM, args: &[Value]) -> Result<Value, RuntimeError> {
+    require_fs(vm, "fs.read_all")?;
     native_read(vm, args)
 }
 
 fn native_write(vm: &mut VM, args: &[Value]) -> Result<Value, RuntimeError> {
+    require_fs(vm, "fs.write")?;
     let h = get_handle(vm, args[0], "fs.write")?;
     let data = get_string(vm, args[1], "fs.write")?.to_string();
 
@@ -298,10 +314,12 @@ fn native_write(vm: &mut VM, args: &[Value]) -> Result<Value, RuntimeError> {
 }
 
 fn native_write_bytes(vm: &mut VM, args: &[Value]) -> Result<Value, RuntimeError> {
+    require_fs(vm, "fs.write_bytes")?;
     native_write(vm, args) // same thing, we're all strings anyway
 }
 
 fn native_write_line(vm: &mut VM, args: &[Value]) -> Result<Value, RuntimeError> {
+    require_fs(vm, "fs.write_line")?;
     let h = get_handle(vm, args[0], "fs.write_line")?;
     let txt = get_string(vm, args[1], "fs.write_line")?.to_string();
 
@@ -327,24 +345,28 @@ fn native_write_line(vm: &mut VM, args: &[Value]) -> Result<Value, RuntimeError>
 // --- stat-like queries ---
 
 fn native_exists(vm: &mut VM, args: &[Value]) -> Result<Value, RuntimeError> {
+    require_fs(vm, "fs.exists")?;
     Ok(Value::bool(
         Path::new(get_string(vm, args[0], "fs.exists")?).exists(),
     ))
 }
 
 fn native_is_file(vm: &mut VM, args: &[Value]) -> Result<Value, RuntimeError> {
+    require_fs(vm, "fs.is_file")?;
     Ok(Value::bool(
         Path::new(get_string(vm, args[0], "fs.is_file")?).is_file(),
     ))
 }
 
 fn native_is_dir(vm: &mut VM, args: &[Value]) -> Result<Value, RuntimeError> {
+    require_fs(vm, "fs.is_dir")?;
     Ok(Value::bool(
         Path::new(get_string(vm, args[0], "fs.is_dir")?).is_dir(),
     ))
 }
 
 fn native_size(vm: &mut VM, args: &[Value]) -> Result<Value, RuntimeError> {
+    require_fs(vm, "fs.size")?;
     let p = get_string(vm, args[0], "fs.size")?;
     fs::metadata(p)
         .map(|m| Value::int(m.len() as i64))
@@ -354,6 +376,7 @@ fn native_size(vm: &mut VM, args: &[Value]) -> Result<Value, RuntimeError> {
 // --- directory ops ---
 
 fn native_mkdir(vm: &mut VM, args: &[Value]) -> Result<Value, RuntimeError> {
+    require_fs(vm, "fs.mkdir")?;
     let p = get_string(vm, args[0], "fs.mkdir")?;
     fs::create_dir(p)
         .map(|_| Value::bool(true))
@@ -361,6 +384,7 @@ fn native_mkdir(vm: &mut VM, args: &[Value]) -> Result<Value, RuntimeError> {
 }
 
 fn native_mkdir_all(vm: &mut VM, args: &[Value]) -> Result<Value, RuntimeError> {
+    require_fs(vm, "fs.mkdir_all")?;
     let p = get_string(vm, args[0], "fs.mkdir_all")?;
     fs::create_dir_all(p)
         .map(|_| Value::bool(true))
@@ -368,6 +392,7 @@ fn native_mkdir_all(vm: &mut VM, args: &[Value]) -> Result<Value, RuntimeError> 
 }
 
 fn native_rmdir(vm: &mut VM, args: &[Value]) -> Result<Value, RuntimeError> {
+    require_fs(vm, "fs.rmdir")?;
     let p = get_string(vm, args[0], "fs.rmdir")?;
     fs::remove_dir(p)
         .map(|_| Value::bool(true))
@@ -376,6 +401,7 @@ fn native_rmdir(vm: &mut VM, args: &[Value]) -> Result<Value, RuntimeError> {
 
 // returns newline-separated list of entries (sorted)
 fn native_readdir(vm: &mut VM, args: &[Value]) -> Result<Value, RuntimeError> {
+    require_fs(vm, "fs.readdir")?;
     let p = get_string(vm, args[0], "fs.readdir")?;
     match fs::read_dir(p) {
         Ok(entries) => {
@@ -393,6 +419,7 @@ fn native_readdir(vm: &mut VM, args: &[Value]) -> Result<Value, RuntimeError> {
 // --- file management ---
 
 fn native_delete(vm: &mut VM, args: &[Value]) -> Result<Value, RuntimeError> {
+    require_fs(vm, "fs.delete")?;
     let p = get_string(vm, args[0], "fs.delete")?;
     fs::remove_file(p)
         .map(|_| Value::bool(true))
@@ -400,6 +427,7 @@ fn native_delete(vm: &mut VM, args: &[Value]) -> Result<Value, RuntimeError> {
 }
 
 fn native_rename(vm: &mut VM, args: &[Value]) -> Result<Value, RuntimeError> {
+    require_fs(vm, "fs.rename")?;
     let src = get_string(vm, args[0], "fs.rename")?;
     let dst = get_string(vm, args[1], "fs.rename")?;
     fs::rename(src, dst)
@@ -408,6 +436,7 @@ fn native_rename(vm: &mut VM, args: &[Value]) -> Result<Value, RuntimeError> {
 }
 
 fn native_copy(vm: &mut VM, args: &[Value]) -> Result<Value, RuntimeError> {
+    require_fs(vm, "fs.copy")?;
     let src = get_string(vm, args[0], "fs.copy")?;
     let dst = get_string(vm, args[1], "fs.copy")?;
     fs::copy(src, dst)
@@ -418,6 +447,7 @@ fn native_copy(vm: &mut VM, args: &[Value]) -> Result<Value, RuntimeError> {
 // --- convenience (no handle) ---
 
 fn native_read_text(vm: &mut VM, args: &[Value]) -> Result<Value, RuntimeError> {
+    require_fs(vm, "fs.read_text")?;
     let p = get_string(vm, args[0], "fs.read_text")?;
     fs::read_to_string(p)
         .map_err(|e| fs_error(vm, "fs.read_text", format!("'{}': {}", p, e)))
@@ -425,6 +455,7 @@ fn native_read_text(vm: &mut VM, args: &[Value]) -> Result<Value, RuntimeError> 
 }
 
 fn native_write_text(vm: &mut VM, args: &[Value]) -> Result<Value, RuntimeError> {
+    require_fs(vm, "fs.write_text")?;
     let p = get_string(vm, args[0], "fs.write_text")?;
     let txt = get_string(vm, args[1], "fs.write_text")?;
     fs::write(p, txt)
@@ -433,6 +464,7 @@ fn native_write_text(vm: &mut VM, args: &[Value]) -> Result<Value, RuntimeError>
 }
 
 fn native_append_text(vm: &mut VM, args: &[Value]) -> Result<Value, RuntimeError> {
+    require_fs(vm, "fs.append_text")?;
     let p = get_string(vm, args[0], "fs.append_text")?;
     let txt = get_string(vm, args[1], "fs.append_text")?;
 
@@ -448,6 +480,7 @@ fn native_append_text(vm: &mut VM, args: &[Value]) -> Result<Value, RuntimeError
 // --- path manipulation ---
 
 fn native_basename(vm: &mut VM, args: &[Value]) -> Result<Value, RuntimeError> {
+    require_fs(vm, "fs.basename")?;
     let p = get_string(vm, args[0], "fs.basename")?.to_string();
     let name = Path::new(&p)
         .file_name()
@@ -458,6 +491,7 @@ fn native_basename(vm: &mut VM, args: &[Value]) -> Result<Value, RuntimeError> {
 }
 
 fn native_dirname(vm: &mut VM, args: &[Value]) -> Result<Value, RuntimeError> {
+    require_fs(vm, "fs.dirname")?;
     let p = get_string(vm, args[0], "fs.dirname")?.to_string();
     let dir = Path::new(&p)
         .parent()
@@ -468,6 +502,7 @@ fn native_dirname(vm: &mut VM, args: &[Value]) -> Result<Value, RuntimeError> {
 }
 
 fn native_extension(vm: &mut VM, args: &[Value]) -> Result<Value, RuntimeError> {
+    require_fs(vm, "fs.extension")?;
     let p = get_string(vm, args[0], "fs.extension")?.to_string();
     let ext = Path::new(&p)
         .extension()
@@ -479,6 +514,7 @@ fn native_extension(vm: &mut VM, args: &[Value]) -> Result<Value, RuntimeError> 
 
 // join with path traversal protection - rejects ../ escapes
 fn native_join(vm: &mut VM, args: &[Value]) -> Result<Value, RuntimeError> {
+    require_fs(vm, "fs.join")?;
     use std::path::Component;
 
     let base = get_string(vm, args[0], "fs.join")?.to_string();
@@ -524,6 +560,7 @@ fn native_join(vm: &mut VM, args: &[Value]) -> Result<Value, RuntimeError> {
 }
 
 fn native_absolute(vm: &mut VM, args: &[Value]) -> Result<Value, RuntimeError> {
+    require_fs(vm, "fs.absolute")?;
     let p = get_string(vm, args[0], "fs.absolute")?;
     fs::canonicalize(p)
         .map(|abs| abs.to_string_lossy().to_string())
